@@ -544,3 +544,16 @@ def post_check(w, mc):
                 ID, "after", "raises-" + type(e).__name__,
                 "after the run, using shared object %s raised %r" % (label, e))
     return None
+
+
+def to_trace(prog):
+    """The same run with the scheduler's decisions written out: every context
+    switch as [thread, its local step, next thread]."""
+    import copy
+    out = execute(prog)
+    tr = out.get("trace")
+    if tr is None:
+        return None
+    p2 = copy.deepcopy(prog)
+    p2["sched"] = dict(kind="trace", seed=0, trace=[list(x) for x in tr])
+    return p2
